@@ -56,7 +56,7 @@ def detector(I, i, asked, first):
 
 def _mk(n, first):
     @task(f"collect[n={n},{'first' if first else 'later'}]", PROP,
-          functions=[f"{Q}.collect", f"{Q}._pack_external_assets", f"{Q}._pack_seq_nums_into_stream_datum", f"{Q}._prepare_stream", f"{Q}.get_external_data_keys"],
+          functions=[f"{Q}.collect", f"{Q}.rewind", f"{Q}._pack_external_assets", f"{Q}._pack_seq_nums_into_stream_datum", f"{Q}._prepare_stream", f"{Q}.get_external_data_keys"],
           expect=[K1, K2, K3] + ([KR] if n > 1 else []), covers=["collected"] + (["width mismatch"] if n > 1 else []))
     def t(I):
         w = I.w
@@ -113,6 +113,8 @@ def _mk(n, first):
         idxs = [d[1] for d in dets]
         if n == 1:
             w.check(K1, len(asked) == 1 and asked[0] is None, rp)
+        elif any(a_ is None or isinstance(a_, (str, tuple, list, dict)) for a_ in asked):
+            w.check(K1, False, dict(rp, asked=repr(asked)[:80]))      # asked to report "whatever you have" although collected together
         else:
             k1 = len(asked) == n
             cond = True
@@ -128,7 +130,14 @@ def _mk(n, first):
         w.check(K2, And(ok, cond), rp)
         # K3
         w.check(K3, Implies(Or(same, n == 1), Eq(b._sequence_counters["fly"], nxt + widths[0])), rp)
-        w.check(f"{Q}.collect#ensures[the stream is marked as never replayed by a rewind]", "fly" in b._unreplayed_streams, rp)
+        # collected frames are never re-taken: a rewind (pause / suspension before the next checkpoint) must keep the numbering
+        snap = w.int("snap_fly")
+        w.add(And(snap >= 1, snap <= nxt))
+        b._sequence_counters_copy["fly"] = snap
+        after = b._sequence_counters["fly"]
+        rr = catch(I, I.getattr(b, "rewind"))
+        w.check(f"{Q}.collect#ensures[a rewind after the collect keeps the stream's numbering: collected frames are not re-taken]",
+                And(rr[0] == "ok", Eq(b._sequence_counters["fly"], after)), dict(rp, clause="rewind"))
     return t
 
 
